@@ -48,6 +48,7 @@ func execNetworkSimplex(g *graph.DGraph, params graph.Params) {
 		e = negCutValueTreeEdge(g.Edges)
 		i++
 	}
+	verifNSExit(int(params.NetworkSimplexBalance), i, maxitr, e != nil)
 	normalize(g)
 	switch params.NetworkSimplexBalance {
 	case 1:
